@@ -171,6 +171,10 @@ def main(argv):
         mod.replay(ctx, rp)
       else:
         mod.run(ctx)
+        # the start-up half of the property: what the daemon derives from carbon.conf and how carbon.service wires it
+        from . import bootcheck
+        if pid in bootcheck.FLAGS:
+          bootcheck.section(ctx, pid)
       return ctx.finish()
     except (Machinery, tlc.MachineryError) as e:
       print('MACHINERY-FAILURE property=%s %s' % (pid, e))
